@@ -180,6 +180,10 @@ type AuditCase struct {
 	ErrKind   string `json:"err_kind,omitempty"`  // what the failing device reports: "" (a plain error) | enospc | eio | edquot
 	HTTP      bool   `json:"http"`                // calls go through the registered HTTP handlers and setec.Client (WhoIs table), not db.DB directly
 	Forwarded bool   `json:"forwarded,omitempty"` // HTTP only: every request carries forwarding headers naming some other address
+	// Polls > 0: before the calls, a client polls "a" that many times with the version it holds (what a
+	// store does all day long): not one of these unchanged conditional gets writes a record, the
+	// hundredth as little as the first
+	Polls int `json:"polls,omitempty"`
 }
 
 // two names beyond any plausible line-length budget that differ only in their last byte
@@ -219,6 +223,9 @@ func genAuditCase(rt *rapid.T) AuditCase {
 	}
 	if c.FailWrite == 0 && c.FailSync == 0 && rapid.IntRange(0, 5).Draw(rt, "closeat") == 0 {
 		c.CloseAt = rapid.IntRange(1, len(c.Ops)).Draw(rt, "closeatidx")
+	}
+	if rapid.IntRange(0, 5).Draw(rt, "withpolls") == 0 {
+		c.Polls = rapid.IntRange(100, 400).Draw(rt, "polls")
 	}
 	return c
 }
@@ -279,6 +286,26 @@ func runC06(t *testing.T, c AuditCase) (*h.Violation, h.Info) {
 	sink.mu.Unlock()
 	sawDenial, sawDelivery, sawUnchanged, sawFaultOnMutation := false, false, false, false
 	writerClosed := false
+	if sa := tr.M["a"]; c.Polls > 0 && sa != nil && sa.Active != 0 {
+		info.Class("a-hundred-or-more-unchanged-polls-in-a-row")
+		pre, _ := os.ReadFile(path)
+		sink.mu.Lock()
+		sink.pre = pre
+		sink.mu.Unlock()
+		for j := 0; j < c.Polls; j++ {
+			op := dbx.Op{Kind: "cond", Name: "a", VSel: "active"}
+			got := tgt.Do(su, op, sa.Active)
+			sink.mu.Lock()
+			nev := len(sink.events)
+			sink.mu.Unlock()
+			if got.Class != model.NotChanged {
+				return h.V("result-equals-model", "poll %d of %d: a conditional get of \"a\" with its active version %d answered %s, want not-changed", j+1, c.Polls, sa.Active, got), info
+			}
+			if nev != 0 {
+				return h.V("unchanged-conditional-get-writes-no-record", "poll %d of %d: an unchanged conditional get of \"a\" (version %d) reached the audit device (%d write/sync events)", j+1, c.Polls, sa.Active, nev), info
+			}
+		}
+	}
 	for i, op := range c.Ops {
 		if op.Caller >= len(callers) {
 			op.Caller = 0
@@ -468,7 +495,7 @@ func runC06(t *testing.T, c AuditCase) (*h.Violation, h.Info) {
 
 var c06 = &h.Campaign[AuditCase]{
 	Prop: "C06", Sub: "audit",
-	Rule:  "rapid: C01-style scenarios (superuser pre-history, 1-2 restricted callers with generated rule sets, 1-25 calls of every kind incl. conditional gets) on db.DB - or, one case in three, through the registered HTTP handlers and setec.Client with a WhoIs table, where a caller without rules is a peer without any grant - over names that include two of 1 105 bytes differing in the last byte, with a recording audit sink (every Write/Sync logged together with whether the database file still equals its pre-call bytes) and a fault plan: the k-th Write fails (nothing or half the record written) or the k-th Sync fails, k anywhere in the history; per call the set of required records comes from the ACL+map model; non-trivial = scenario has a denial AND a delivery AND (an unchanged conditional get OR an injected sink fault that hits an allowed mutation); distinct by scenario",
+	Rule:  "rapid: C01-style scenarios (superuser pre-history, 1-2 restricted callers with generated rule sets, 1-25 calls of every kind incl. conditional gets) on db.DB - or, one case in three, through the registered HTTP handlers and setec.Client with a WhoIs table, where a caller without rules is a peer without any grant - over names that include two of 1 105 bytes differing in the last byte, with a recording audit sink (every Write/Sync logged together with whether the database file still equals its pre-call bytes) and a fault plan: the k-th Write fails (nothing or half the record written) or the k-th Sync fails, k anywhere in the history; per call the set of required records comes from the ACL+map model; in one case of six the history is preceded by 100-400 unchanged conditional gets of one secret in a row (none may reach the audit device); non-trivial = scenario has a denial AND a delivery AND (an unchanged conditional get OR an injected sink fault that hits an allowed mutation); distinct by scenario",
 	Quick: 6000, Thorough: 800000,
 	Gen: genAuditCase,
 	Run: runC06,
